@@ -1,5 +1,5 @@
 """Registry: which suites, oracles and trusted-base notes belong to which property."""
-from suites import gens
+from suites import gens, system
 
 
 def c01_suites(tier):
@@ -7,7 +7,7 @@ def c01_suites(tier):
 
 
 def c02_suites(tier):
-    return [gens.PNStringSuite(), gens.PermuteSuite(), gens.MethodRowsSuite(with_calls=False), gens.GenHistorySuite()]
+    return [gens.PNStringSuite(), gens.PermuteSuite(), gens.MethodRowsSuite(with_calls=False, with_reset=True), gens.GenHistorySuite()]
 
 
 def c03_suites(tier):
@@ -22,10 +22,20 @@ def c05_suites(tier):
     return [gens.MethodRowsSuite(with_calls=True, with_reset=True), gens.GenHistorySuite()]
 
 
+def c06_suites(tier):
+    return [system.StartStopSuite(), system.RandomSessionSuite()]
+
+
+def c07_suites(tier):
+    return [system.StartStopSuite(), system.RandomSessionSuite()]
+
+
 PROPS = {
     "C01": {"suites": c01_suites},
     "C02": {"suites": c02_suites},
     "C03": {"suites": c03_suites},
     "C04": {"suites": c04_suites},
     "C05": {"suites": c05_suites},
+    "C06": {"suites": c06_suites},
+    "C07": {"suites": c07_suites},
 }
